@@ -255,32 +255,43 @@ def check_sets(run: Run, prog: Program) -> None:
     fn = prog.func(f"{BM}._distribute_power")
     run.analysed(fn.qual)
     ctors = find_calls(fn.node, lambda c: u(c.func) in ("Success", "PartialFailure"))
-    te = resolve_env(fn.node)
+    # names: failed set = 2nd result of _set_distributed_power; addressed map = dict filled in the loop
+    failed_name = None
+    for s in body_walk(fn.node):
+        if isinstance(s, ast.Assign) and isinstance(s.targets[0], ast.Tuple) and len(s.targets[0].elts) == 2 \
+                and isinstance(s.value, ast.Await) and isinstance(s.value.value, ast.Call) \
+                and method_call(s.value.value, "self", "_set_distributed_power"):
+            failed_name = u(s.targets[0].elts[1])
+    addressed = None
+    for s in body_walk(fn.node):
+        if isinstance(s, ast.For) and u(s.iter) == "distribution.distribution.items()":
+            for x in ast.walk(s):
+                if isinstance(x, ast.Assign) and isinstance(x.targets[0], ast.Subscript):
+                    addressed = u(x.targets[0].value)
+    if failed_name is None or addressed is None:
+        raise AnalysisError(f"{fn.qual}: failed set / addressed battery map not identified")
+    all_keys = {f"set({addressed}.keys())", f"set({addressed})", f"{addressed}.keys()"}
     for c in ctors:
         kws = {k.arg: k.value for k in c.keywords if k.arg}
         kind = u(c.func)
-        # find the reaching definition of succeeded_components inside the same branch
         sc = kws["succeeded_components"]
         branch = _enclosing_branch(fn.node, c)
         defs = [s for s in branch if isinstance(s, ast.Assign) and u(s.targets[0]) == u(sc)]
         val = u(defs[-1].value) if defs else u(sc)
+        v = val.replace(" ", "")
         if kind == "PartialFailure":
-            ok = val.replace(" ", "") in ("set(battery_distribution.keys())-failed_batteries",
-                                          "set(battery_distribution)-failed_batteries",
-                                          "battery_distribution.keys()-failed_batteries") \
-                and u(kws["failed_components"]) == "failed_batteries"
+            ok = v in {f"{k}-{failed_name}" for k in all_keys} and u(kws["failed_components"]) == failed_name
         else:
-            ok = val.replace(" ", "") in ("set(battery_distribution.keys())",
-                                          "set(battery_distribution)")
+            ok = v in all_keys
         run.check(ok, "C15.SETS", fn.qual, f"{kind}(succeeded_components={val})",
                   "succeeded components are not `addressed - failed` (sets would overlap or miss "
                   "addressed components)", node=c, file=fn.file)
     # Success only when nothing failed
     cfg = CFG(fn.node, fn.file)
-    tests = [t for t in cfg.nodes if t.kind == "test" and "failed_batteries" in t.label]
+    tests = [t for t in cfg.nodes if t.kind == "test" and failed_name in t.label]
     ok = len(tests) == 1 and u(tests[0].ast).replace(" ", "") in (
-        "len(failed_batteries)>0", "failed_batteries", "len(failed_batteries)!=0")
-    run.check(ok, "C15.SETS", fn.qual, "PartialFailure iff failed_batteries",
+        f"len({failed_name})>0", failed_name, f"len({failed_name})!=0", f"0<len({failed_name})")
+    run.check(ok, "C15.SETS", fn.qual, f"PartialFailure iff {failed_name}",
               "Success/PartialFailure is not selected by whether any component failed",
               node=fn.node, file=fn.file)
     # addressed batteries derive from every inverter of the distribution
